@@ -430,7 +430,7 @@ def _main_run(mod, pid, args, seed):
         new = {}
         for sig, slot in agg["violations"].items():
             new[sig] = slot
-        shrink_cap = 60 if tier == "quick" else 300
+        shrink_cap = 30 if tier == "quick" else 300
         sjobs = []
         for sig, slot in sorted(new.items())[:16]:
             if slot.get("shrinkable") and hasattr(mod, "strategy") and not os.environ.get("VERIF_NOSHRINK"):
